@@ -111,6 +111,8 @@ type interp struct {
 	histX   map[uint16]int64
 	pseen   map[string]bool
 	cur     *invocation
+	cells   int64
+	depth   int
 	curInst *Inst
 	local   [3]uint32
 	wgID    [3]uint32
@@ -161,21 +163,36 @@ func (m *Module) prepare() *prepared {
 	if m.prep != nil {
 		return m.prep
 	}
-	n := int(m.Bound)
+	// ids of a sane module are smaller than its word count; anything beyond is corrupt
+	limit := 16
+	for _, in := range m.Insts {
+		limit += len(in.Words)
+	}
+	n := 1
+	tooBig := uint32(0)
 	for id := range m.defs {
+		if int64(id) >= int64(limit) {
+			tooBig = id
+			continue
+		}
 		if int(id) >= n {
 			n = int(id) + 1
 		}
 	}
 	p := &prepared{kind: make([]uint8, n), slot: make([]int32, n), ty: make([]*Type, n), valType: make([]uint32, n)}
 	m.prep = p
+	if tooBig != 0 {
+		p.err = fmt.Sprintf("result id %%%d is implausibly large for a module of %d words", tooBig, limit-16)
+	}
 	for id, t := range m.types {
 		if int(id) < n {
 			p.ty[id] = t
 		}
 	}
 	for id, in := range m.defs {
-		p.valType[id] = in.Type
+		if int(id) < n {
+			p.valType[id] = in.Type
+		}
 	}
 	// constants, in module order
 	it := &interp{m: m, p: p, res: &RunResult{}, pseen: map[string]bool{}}
@@ -187,7 +204,7 @@ func (m *Module) prepare() *prepared {
 		case OpFunctionEnd:
 			inFunc = false
 		}
-		if inFunc || in.Result == 0 || m.defs[in.Result] != in {
+		if inFunc || in.Result == 0 || m.defs[in.Result] != in || int(in.Result) >= n {
 			continue
 		}
 		switch in.Op {
@@ -214,7 +231,7 @@ func (m *Module) prepare() *prepared {
 	for _, f := range m.funcs {
 		k := 0
 		for _, pi := range f.Params {
-			if m.defs[pi.Result] == pi {
+			if m.defs[pi.Result] == pi && int(pi.Result) < n {
 				p.kind[pi.Result] = idLocal
 				p.slot[pi.Result] = int32(k)
 				k++
@@ -222,7 +239,7 @@ func (m *Module) prepare() *prepared {
 		}
 		for _, b := range f.Blocks {
 			for _, in := range b.Insts {
-				if in.Result != 0 && in.Op != OpLabel && m.defs[in.Result] == in {
+				if in.Result != 0 && in.Op != OpLabel && m.defs[in.Result] == in && int(in.Result) < n {
 					p.kind[in.Result] = idLocal
 					p.slot[in.Result] = int32(k)
 					k++
@@ -305,9 +322,20 @@ func (it *interp) evalConst(in *Inst) (v Value, err string) {
 
 // newValue builds a zero (or all-poison) value of the given type.
 func (it *interp) newValue(tid uint32, poison bool) Value {
+	return it.newValueD(tid, poison, 0)
+}
+
+// maxCells bounds the memory one Run may materialise (corrupt array lengths, recursive types).
+const maxCells = 1 << 22
+
+func (it *interp) newValueD(tid uint32, poison bool, depth int) Value {
 	t := it.ty(tid)
 	if t == nil {
 		it.trap("value of unknown type %%%d", tid)
+	}
+	it.cells++
+	if depth > 64 || it.cells > maxCells || int64(t.Count) > maxCells-it.cells {
+		it.unsupported("value too large or too deeply nested to materialise (type " + it.m.TypeString(tid) + ")")
 	}
 	switch t.Kind {
 	case TBool, TInt, TFloat:
@@ -315,13 +343,13 @@ func (it *interp) newValue(tid uint32, poison bool) Value {
 	case TVector, TMatrix, TArray:
 		es := make([]Value, t.Count)
 		for i := range es {
-			es[i] = it.newValue(t.Elem, poison)
+			es[i] = it.newValueD(t.Elem, poison, depth+1)
 		}
 		return comp(es)
 	case TStruct:
 		es := make([]Value, len(t.Members))
 		for i, mm := range t.Members {
-			es[i] = it.newValue(mm, poison)
+			es[i] = it.newValueD(mm, poison, depth+1)
 		}
 		return comp(es)
 	case TPointer:
@@ -358,8 +386,14 @@ func Run(m *Module, cfg RunConfig) (res *RunResult, err error) {
 			case stepPanic:
 				err = ErrStepLimit
 			default:
-				// a bug of this interpreter, never of the module under test
-				err = fmt.Errorf("spv: internal interpreter error: %v\n%s", r, debug.Stack())
+				// A Go run-time failure while executing a module that violates the structural
+				// rules (wrong operand classes, missing types …) is reported as a trap; on a
+				// module the validator accepts it is a bug of this interpreter.
+				if is := Validate(m); len(is) > 0 {
+					res.Trap = fmt.Sprintf("malformed module: %s (interpreter stopped with: %v)", is[0], r)
+				} else {
+					err = fmt.Errorf("spv: internal interpreter error: %v\n%s", r, debug.Stack())
+				}
 			}
 		}
 	}()
@@ -412,6 +446,9 @@ func Run(m *Module, cfg RunConfig) (res *RunResult, err error) {
 			bb := &boundBuffer{varID: gv.Result, push: true, data: cfg.PushConstants, missing: cfg.PushConstants == nil}
 			it.bufs[gv.Result] = bb
 		}
+	}
+	if uint64(ls[0])*uint64(ls[1])*uint64(ls[2]) > 1<<16 {
+		panic(trapPanic{fmt.Sprintf("unsupported: LocalSize %v exceeds 65536 invocations", ls)})
 	}
 	nInv := int(ls[0] * ls[1] * ls[2])
 	for wz := uint32(0); wz < cfg.NumWorkgroups[2]; wz++ {
@@ -1038,8 +1075,23 @@ func (it *interp) store(p *Pointer, v Value) {
 	assign(p.Cell, v)
 }
 
-func (it *interp) loadBuf(p *Pointer) Value {
+// guardComposite bounds recursion depth and element counts of buffer loads / stores
+// (corrupt modules can declare self-containing structs or absurd array lengths).
+func (it *interp) guardComposite(p *Pointer) *Type {
 	t := it.ty(p.Type)
+	if t == nil {
+		it.trap("memory access through unknown type %%%d", p.Type)
+	}
+	if it.depth > 64 || int64(t.Count) > maxCells {
+		it.unsupported("type too large or too deeply nested for a memory access (" + it.m.TypeString(p.Type) + ")")
+	}
+	return t
+}
+
+func (it *interp) loadBuf(p *Pointer) Value {
+	t := it.guardComposite(p)
+	it.depth++
+	defer func() { it.depth-- }()
 	switch t.Kind {
 	case TInt, TFloat:
 		sz := int64(t.Width / 8)
@@ -1082,7 +1134,9 @@ func (it *interp) chainConst(p *Pointer, i int64) *Pointer {
 }
 
 func (it *interp) storeBuf(p *Pointer, v Value) {
-	t := it.ty(p.Type)
+	t := it.guardComposite(p)
+	it.depth++
+	defer func() { it.depth-- }()
 	switch t.Kind {
 	case TInt, TFloat:
 		sz := int64(t.Width / 8)
